@@ -448,6 +448,17 @@ class Tree:
         raise Stop(("return", a.get("ln")))
 
 
+def length_locals(body):
+    """names of the locals that hold the run length of the segment: `let x = <..>.get_seg_length_at(..)` / `seg_length_at(..)`"""
+    out = set()
+    for n in hirq.walk(body.hir["body"]):
+        if n["e"] == "let" and n["pat"].get("p") == "bind" and n.get("init") is not None:
+            i0 = untry(n["init"])
+            if i0.get("e") == "mcall" and i0["name"] in ("get_seg_length_at", "seg_length_at"):
+                out.add(n["pat"]["name"])
+    return tuple(sorted(out))
+
+
 def _accepts(body, fn, dom, state, signs, state_locals, state_fields, alpha=None):
     t = Tree(fn, dom, state, signs, state_locals, state_fields, alpha)
     try:
@@ -497,6 +508,10 @@ def sup1(ctx):
     Tree.unit = lib
     for path, dom, sl, sf, has_alpha in MATCHERS:
         b = ctx.fn(lib, path)
+        if dom == "length":
+            sl = length_locals(b)
+            if not sl:
+                raise AnchorMissing("%s: no local holds the run length (`.seg_length_at(..)`)" % path)
         D = STRESS if dom == "stress" else LENGTH
         short = path.rsplit("::", 1)[-1]
         slots = _binmod_slot_matches(b)
@@ -626,6 +641,10 @@ def sup2(ctx):
     tables = {}
     for path, dom, sl, sf in SETTERS:
         b = ctx.fn(lib, path)
+        if dom == "length":
+            sl = length_locals(b)
+            if not sl:
+                raise AnchorMissing("%s: no local holds the run length (`.get_seg_length_at(..)`)" % path)
         D = STRESS if dom == "stress" else LENGTH
         short = path.rsplit("::", 1)[-1]
         tab = {}
@@ -633,8 +652,6 @@ def sup2(ctx):
             contradictory = signs == (False, True)
             for s in D:
                 t = Tree(path, dom, s, signs, sl, sf)
-                if dom == "length":
-                    t.env["seg"] = ("bool", False)
                 outcome = "ok"
                 try:
                     # only the part of apply_supras that concerns length: the match on mods.length
@@ -729,6 +746,10 @@ def sup3(ctx):
              ("stress", "asca::subrule::SubRule::match_stress", (), ("stress",), "asca::syll::Syllable::apply_syll_mods", (), ("stress",), "stress")]
     for dom, mpath, msl, msf, spath, ssl, ssf, field in pairs:
         mb, sb = ctx.fn(lib, mpath), ctx.fn(lib, spath)
+        if dom == "length":
+            msl, ssl = length_locals(mb), length_locals(sb)
+            if not msl or not ssl:
+                raise AnchorMissing("%s / %s: no local holds the run length" % (mpath, spath))
         D = STRESS if dom == "stress" else LENGTH
         ms = [m for m in hirq.matches(sb) if "; 2]" in (m.get("sty") or "") and hirq.strip(m["scrut"]).get("name") == field]
         if len(ms) != 1:
@@ -744,8 +765,6 @@ def sup3(ctx):
                     raise AnchorMissing("%s: the unbound alpha of slot %d captures no boolean on %s" % (mpath, k, s))
                 signs[k] = cap
                 t2 = Tree(spath, dom, s, tuple(signs), ssl, ssf)
-                if dom == "length":
-                    t2.env["seg"] = ("bool", False)
                 outcome = "ok"
                 try:
                     t2.run(ms[0])
